@@ -59,7 +59,14 @@ def build_pf(pe, x):
 
 def build_module(x):
     # (module (axioms ..) (claims ..) (proofs ..) (subs ..))
-    pe = ProofExp(axioms=[npat(a) for a in x[1][1:]], claims=[npat(a) for a in x[2][1:]])
+    import os
+    if os.environ.get('PI2_MODULE_VIA_ADD') == '1':
+        # the other way of building a module (the one ExecutionProofExp uses): an empty ProofExp filled through add_axioms / add_claims
+        pe = ProofExp()
+        pe.add_axioms([npat(a) for a in x[1][1:]])
+        pe.add_claims([npat(a) for a in x[2][1:]])
+    else:
+        pe = ProofExp(axioms=[npat(a) for a in x[1][1:]], claims=[npat(a) for a in x[2][1:]])
     for sub in x[4][1:]:
         pe.import_module(build_module(sub))
     for pf in x[3][1:]:
